@@ -2,6 +2,7 @@ package rules
 
 import (
 	"go/token"
+	"go/types"
 	"strings"
 
 	"gldapverif/an"
@@ -301,6 +302,34 @@ func checkC20(c *Ctx) {
 						k, kneg := an.CondKey(cv)
 						condWhenFound := (!trueMeansNil) != cneg
 						foundKeys[k] = condWhenFound != kneg
+					}
+					// the position form: `at >= 0`, `at < 0`, `at != -1`, `at == -1` on an index that is -1 when nothing was
+					// found (a loop-carried phi with a -1 edge, or the int result of a lookup helper given the entry's attributes)
+					if bo, isB := cond.(*ssa.BinOp); isB {
+						x, kc, swapped := bo.X, bo.Y, false
+						if _, isK := an.IntConst(x); isK {
+							x, kc, swapped = bo.Y, bo.X, true
+						}
+						kv, isK := an.IntConst(kc)
+						if !isK || !isIndexLike(x, rooted) {
+							continue
+						}
+						op := bo.Op
+						if swapped {
+							op = map[token.Token]token.Token{token.LSS: token.GTR, token.LEQ: token.GEQ, token.GTR: token.LSS, token.GEQ: token.LEQ, token.EQL: token.EQL, token.NEQ: token.NEQ}[op]
+						}
+						var trueMeansFound, okForm bool
+						switch {
+						case op == token.GEQ && kv == 0, op == token.GTR && kv == -1, op == token.NEQ && kv == -1:
+							trueMeansFound, okForm = true, true
+						case op == token.LSS && kv == 0, op == token.LEQ && kv == -1, op == token.EQL && kv == -1:
+							trueMeansFound, okForm = false, true
+						}
+						if okForm {
+							k, kneg := an.CondKey(cv)
+							condWhenFound := trueMeansFound != cneg
+							foundKeys[k] = condWhenFound != kneg
+						}
 					}
 				}
 			})
@@ -803,4 +832,33 @@ func (c *Ctx) checkDefaultCode(h *ssa.Function, ctor, codeConst, rule string) {
 		pos = c.pos(at)
 	}
 	c.R.Check(ok, rule, fname(h)+": default result "+codeConst, pos, "response created with WithResponseCode("+codeConst+")", "the handler's default result is not "+codeConst)
+}
+
+// isIndexLike: v is an int that is -1 when a lookup found nothing: a phi with
+// a constant -1 edge, or the int result of a module helper that is given
+// something reachable from the matched entry.
+func isIndexLike(v ssa.Value, rooted func(ssa.Value, int) bool) bool {
+	v = an.Strip(v)
+	if b, ok := v.Type().Underlying().(*types.Basic); !ok || b.Info()&types.IsInteger == 0 {
+		return false
+	}
+	switch x := v.(type) {
+	case *ssa.Phi:
+		for _, e := range x.Edges {
+			if k, ok := an.IntConst(e); ok && k == -1 {
+				return true
+			}
+		}
+	case *ssa.Call:
+		f := an.StaticCallee(x.Common())
+		if f == nil || !an.InModule(f) {
+			return false
+		}
+		for _, a := range x.Common().Args {
+			if rooted(a, 0) {
+				return true
+			}
+		}
+	}
+	return false
 }
